@@ -18,6 +18,91 @@ EXPLANATION = (
 GROW = ('push_back', 'emplace_back', 'insert', 'emplace', 'resize', 'reserve', 'assign')
 
 
+def _rule_dying_alias(prog, chk, R):
+    """R12.11 — inside a user destructor `this` is a *non-owning* alias of the dying object (a shared_ptr built from the raw pointer
+    with an empty deleter).  A destructor can store it (`Registry.last = this;`); the object is freed when the deleter returns, and
+    the stored alias dangles (heap-use-after-free on the next `Registry.last.x`).  Required shape, wherever such an alias is made:
+      (a) the alias is a named local, and that local is what gets bound (no second, untracked alias);
+      (b) its use_count() is examined after the destructor activations, and the result reaches a flag of the object;
+      (c) every `delete` of an Object in the evaluator is on the flag-clear side of a test of that flag (a still-referenced object
+          is parked, not freed)."""
+    chk.rule('R12.11', "a dying object's `this` alias that a destructor stored keeps the storage alive (no dangling alias)")
+    evs = [x for x in R.ev_methods() if x.body]
+    lam_fns = [l for x in evs for l in getattr(x, 'lambdas', [])]
+
+    def is_noop_alias(e):
+        e = SX.strip(e)
+        if not (SX.is_node(e) and e.get('k') == 'construct' and 'shared_ptr<bloch::runtime::Object>' in (e.get('type') or '').replace('std::', '')):
+            return False
+        a = SX.real_args(e)
+        if len(a) != 2:
+            return False
+        lam = SX.strip(a[1])
+        if not (SX.is_node(lam) and lam.get('k') == 'lambda'):
+            return False
+        body = lam.get('body')
+        return SX.is_node(body) and body.get('k') == 'block' and not body.get('body')
+    n_alias = 0
+    flags = set()
+    for f in evs:
+        aliases = [n for n in SX.walk(f.body, into_lambdas=False) if is_noop_alias(n)]
+        if not aliases:
+            continue
+        for a in aliases:
+            n_alias += 1
+            decl = [v for v in SX.walk(f.body, into_lambdas=False) if v['k'] == 'var' and SX.is_node(v.get('init')) and SX.strip(v['init']) is a]
+            ok_a = len(decl) == 1
+            ok_b = False
+            if ok_a:
+                vid = decl[0]['id']
+                # use_count() of the alias, anywhere in the function (incl. local records bound to it by reference)
+                bound = {vid}
+                for v in SX.walk(f.body, into_lambdas=True):
+                    if v['k'] == 'var' and SX.is_node(v.get('init')) and any(y.get('k') == 'ref' and y.get('id') == vid for y in SX.walk(v['init'])):
+                        bound.add(v['id'])
+                counts = [n for n in SX.walk(f.body, into_lambdas=True) if n['k'] == 'mcall' and SX.short(n.get('callee', '')) == 'use_count' and
+                          any(y.get('k') == 'ref' and y.get('id') == vid for y in SX.walk(n.get('obj')))]
+                # … and in member functions of local records constructed from it (scope-exit helpers)
+                for rn, rec in prog.facts.records.items():
+                    if f.name in rn or (rec.get('file') == f.file and f.ln <= rec.get('ln', 0) <= f.d.get('endln', f.ln)):
+                        for mth in prog.methods_of(rn):
+                            if mth.body:
+                                for n in SX.walk(mth.body):
+                                    if n['k'] == 'mcall' and SX.short(n.get('callee', '')) == 'use_count':
+                                        counts.append(n)
+                                    w = SX.write_target(n)
+                                    if w and any(y.get('k') == 'mcall' and SX.short(y.get('callee', '')) == 'use_count' for y in SX.walk(w[1] or {})):
+                                        l0 = SX.strip(w[0])
+                                        if SX.is_node(l0) and l0.get('k') == 'member':
+                                            flags.add(l0['name'])
+                for n in SX.walk(f.body, into_lambdas=True):
+                    w = SX.write_target(n)
+                    if w and SX.is_node(SX.strip(w[0])) and SX.strip(w[0]).get('k') == 'member' and 'Object' in (SX.strip(SX.strip(w[0]).get('base')).get('t') or ''):
+                        if any(y.get('k') == 'mcall' and SX.short(y.get('callee', '')) == 'use_count' for y in SX.walk(w[1] or {})):
+                            flags.add(SX.strip(w[0])['name'])
+                ok_b = bool(counts) and bool(flags)
+            chk.ob('R12.11', f, a.get('ln', f.ln), ok_a and ok_b,
+                   'the non-owning alias of the dying object is a named local whose use_count() is examined after the destructors and recorded in a flag of the object '
+                   '(named local: %s; examined and recorded: %s) — otherwise a destructor that stores `this` leaves a dangling reference' % (ok_a, ok_b), key='alias:%s' % f.short)
+    chk.count('non-owning aliases of dying objects', n_alias, 1)
+    # (c) deletes
+    n_del = 0
+    for f in evs + lam_fns:
+        g = prog.cfg(f)
+        for d in g.nodes:
+            if not (SX.is_node(d.e) and d.kind not in ('edge', 'cond', 'decl', 'loophead', 'lambda') and d.e.get('k') != 'lambda' and
+                    any(x.get('k') == 'delete' for x in ([d.e] if d.e.get('k') == 'delete' else SX.walk(d.e, into_lambdas=False)))):
+                continue
+            dl = d.e if d.e.get('k') == 'delete' else next(x for x in SX.walk(d.e, into_lambdas=False) if x.get('k') == 'delete')
+            tgt = SX.strip(dl.get('e'))
+            if not (SX.is_node(tgt) and 'Object' in (tgt.get('t') or '')):
+                continue
+            n_del += 1
+            ok = any((not pol) and any(y.get('k') == 'member' and y.get('name') in flags for y in SX.walk(ce)) for ce, pol, ed in g.guards(d))
+            chk.ob('R12.11', f, d.ln or f.ln, ok, 'an Object is deleted only when its still-referenced flag (%s) is clear' % sorted(flags), key='delete-guard:%s' % f.short.split('@')[0])
+    chk.count('deletes of Objects in the evaluator', n_del, 1)
+
+
 def _rule_layout_order(prog, chk):
     """R12.10 — an object's field vector is sized from its class's layout, and the initialisers of every class of the chain write
     at the offsets that class recorded: the layout of a base must be complete before a derived class copies it, or the object is
@@ -154,6 +239,7 @@ def run(prog, chk):
     _rule_inplace_shrink(prog, chk, R, owners, dtor)
     _rule_slot_overwrite(prog, chk, R)
     _rule_layout_order(prog, chk)
+    _rule_dying_alias(prog, chk, R)
     dels = _deleter_lambdas(prog, R)
     chk.count('shared_ptr<Object> deleter lambdas', len(dels), 1)
     throwing = _may_throw_set(prog)
